@@ -156,6 +156,7 @@ theorem good_updateClient {s : St} (h : Good s) (c : Nat) (w : Wrap) (hd : Hdr) 
   unfold updateClient
   cases w with
   | nested => exact ⟨h.clients, h.agree⟩
+  | storedProposal => exact ⟨h.clients, h.agree⟩
   | wrapped => exact ⟨h.clients, h.agree⟩
   | nestedWrapped => exact ⟨h.clients, h.agree⟩
   | top =>
